@@ -300,7 +300,16 @@ func runScanProfile(c *Ctx, p scanProfile) {
 	cliFromTLC := []cases.ScanCase{}
 	seenGraph := map[string]bool{}
 	nBeh := 0
+	// every exported family gets an equal share of the CLI replays (what a family leaves unused goes to
+	// the next one): otherwise the first family alone fills the quota
+	share := 0
+	if len(p.Export) > 0 {
+		share = (p.MaxCLIFromTLC + len(p.Export) - 1) / len(p.Export)
+	}
+	carry := 0
 	for _, cfg := range p.Export {
+		cliBefore := len(cliFromTLC)
+		allowed := share + carry
 		var batch []pending
 		all := 0
 		res := tlcScan(c, withExport(cfg), 60*time.Minute, func(b *Behaviour) {
@@ -423,7 +432,7 @@ func runScanProfile(c *Ctx, p scanProfile) {
 					"roots": b.R, "order": b.Ord, "oracle": b.Oracle})
 			}
 			// CLI replay of the graph (once per graph)
-			if !seenGraph[gk] && len(cliFromTLC) < p.MaxCLIFromTLC {
+			if !seenGraph[gk] && len(cliFromTLC) < p.MaxCLIFromTLC && len(cliFromTLC)-cliBefore < allowed {
 				if csc, ok := behaviourCase(b, fmt.Sprintf("t%s-%d", cfg.Family, len(cliFromTLC)+1), false); ok {
 					seenGraph[gk] = true
 					csc.Ord = nil
@@ -468,6 +477,7 @@ func runScanProfile(c *Ctx, p scanProfile) {
 				_ = gk
 			}
 		}
+		carry = allowed - (len(cliFromTLC) - cliBefore)
 	}
 
 	// 3. CLI: TLC-chosen graphs and Go-generated repositories through the real binary
